@@ -4,14 +4,14 @@ import "verif/engine/sym"
 
 func init() {
 	grids["C10"] = &gridDef{
-		explain: "every operation history (Append / Get / GetSince / LastDate / Assets over two asset names) up to the stated length is executed on the real InMemoryRepository, the real FileSystemRepository code and the real SQLRepository code with symbolic snapshot dates (day numbers), symbolic prices and symbolic GetSince bounds; after every operation the result is compared by the solver with a map-of-slices model: order, exact date >= bound filtering, last date, asset listing as a set, errors on unknown / empty, visibility of a returned Append",
+		explain: "every operation history (Append / Get / GetSince / LastDate / Assets over two asset names) up to the stated length is executed on the real InMemoryRepository, the real FileSystemRepository code and the real SQLRepository code with symbolic snapshot dates (day numbers), symbolic prices and symbolic GetSince bounds; after every operation the result is compared by the solver with a map-of-slices model: order, exact date >= bound filtering, last date, asset listing as a set, errors on unknown / empty, visibility of a returned Append; a second harness (H_C10_Conc) keeps two Append calls on one asset alive at the same time (in-memory and SQL repositories) under three scheduling policies, and with one call's producer held back until the other call has returned (either way round), and checks that, once both have returned, every snapshot of both is visible exactly once and in per-call order",
 		bounds: func(t string) string {
 			if t == "thorough" {
-				return "all histories of <= 4 operations (10 operation x asset choices per step), with and without a pre-existing asset; dates in [2000-01-01, +9000 days]"
+				return "all histories of <= 4 operations (10 operation x asset choices per step), with and without a pre-existing asset; dates in [2000-01-01, +9000 days]; concurrent appends of 0..3 and 1..3 snapshots after 0..1 earlier ones, 3 schedules + 2 pacings; single Append calls of 64, 257, 600, 1100 and 2100 snapshots"
 			}
-			return "all histories of <= 3 operations (10 choices per step), with and without a pre-existing asset"
+			return "all histories of <= 3 operations (10 choices per step), with and without a pre-existing asset; concurrent appends of 0..2 and 1..2 snapshots after 0..1 earlier ones, 3 schedules + 2 pacings; single Append calls of 64 and 600 snapshots"
 		},
-		outside:     "real SQL drivers (the SQL repository runs over a table model: database/sql entry points stubbed symbolically, a minimal in-process driver in native replays; statement semantics are the model's: rows per asset in insertion order); for the file-system repository the CSV layer (helper.ReadFromCsvFile, AppendOrWriteToCsvFile, os.ReadDir) is replaced by a file-table stub in the symbolic run (the native replay uses a real temporary directory); asset names that are not valid file names; longer histories",
+		outside:     "real SQL drivers (the SQL repository runs over a table model: database/sql entry points stubbed symbolically, a minimal in-process driver in native replays; statement semantics are the model's: rows per asset in insertion order); for the file-system repository the CSV layer (helper.ReadFromCsvFile, AppendOrWriteToCsvFile, os.ReadDir) is replaced by a file-table stub in the symbolic run (the native replay uses a real temporary directory); asset names that are not valid file names; longer histories; interleavings of concurrent calls other than the three scheduling policies' (lock acquisition order is not fixed by happens-before); concurrent appends on the file-system repository (two writers on one file: outside the map model)",
 		assumptions: append([]string{"day-number model of time.Time (Equal/After/Before/AddDate(0,0,d)): whole-day UTC dates as the property's domain states", "stub contract of the CSV layer: a file holds the rows appended to it, in order; reading a missing file is an error", "table contract of the SQL layer (harness/h/c10_sql.go): APPEND inserts a row, GETSINCE returns the asset's rows dated on/after the bound in insertion order, LASTDATE the date of its last inserted row or no row, ASSETS the distinct names", realModeNote}, commonAssumptions...),
 		cases: func(tier string, pr *prober) []sym.CaseSpec {
 			maxSteps := 3
@@ -31,6 +31,45 @@ func init() {
 							c := cs("H_C10", kind, steps, code, seed)
 							c.Weight = steps
 							out = append(out, c)
+						}
+					}
+				}
+			}
+			// one large Append (sizes at which batching / chunking logic changes behaviour)
+			bulk := []int{64, 600}
+			if tier == "thorough" {
+				bulk = []int{64, 257, 600, 1100, 2100}
+			}
+			for kind := 0; kind <= 2; kind++ {
+				for _, n := range bulk {
+					c := cs("H_C10_Bulk", kind, n)
+					c.MaxSteps = 40000000
+					c.MaxWallS = 300
+					out = append(out, c)
+				}
+			}
+			// two Append calls on one asset alive at the same time (in-memory and SQL): lock
+			// acquisition order is schedule-dependent, so no certificate is asked for; the
+			// three scheduling policies are run instead and shared memory is tracked for races
+			maxN := 2
+			if tier == "thorough" {
+				maxN = 3
+			}
+			for _, kind := range []int{0, 2} {
+				for n0 := 0; n0 <= 1; n0++ {
+					for n1 := 0; n1 <= maxN; n1++ {
+						for n2 := 1; n2 <= maxN; n2++ {
+							for sched := 0; sched <= 2; sched++ {
+								c := cs("H_C10_Conc", kind, n0, n1, n2, 0)
+								c.Sched = sched
+								c.TrackMem = true
+								out = append(out, c)
+							}
+							for pace := 1; pace <= 2; pace++ {
+								c := cs("H_C10_Conc", kind, n0, n1, n2, pace)
+								c.TrackMem = true
+								out = append(out, c)
+							}
 						}
 					}
 				}
